@@ -93,6 +93,11 @@ Theorem C15_xy_order_builtin : forall name doc, In (name, doc) gen_tms_documents
 Proof. exact xy_order_builtin_lemma. Qed.
 Print Assumptions C15_xy_order_builtin.
 
+(** when the CRS answers, the (informative) orderedAxes play no part: ToXYPoint swaps exactly when the CRS is lat/lon *)
+Theorem C15_crs_decides_axis_order : forall t b, isLatLon (t_crs t) = Ok b -> tms_swaps t = Ok b.
+Proof. intros t b H. unfold tms_swaps. rewrite H. reflexivity. Qed.
+Print Assumptions C15_crs_decides_axis_order.
+
 (** the orderedAxes fall-back (CRS authority unknown, i.e. none of the built-in sets): northing-first orders are swapped,
     easting-first orders are not — for every spelling of the recognised axis names (regression of defect F15: the two
     patterns were the wrong way round, so a set with orderedAxes [X, Y] had its point of origin mirrored) *)
